@@ -323,6 +323,8 @@ class Ctx:
                 print("NOTE: property=%s included growth check %s reports %s outside this property's scope (see ./check %s): %s" % (
                     self.prop, gid, v["key"], gid, v["what"][:200]), flush=True)
         for h in sub.known_hits:
+            if accept is not None and not accept(h["key"].rstrip("*")):
+                continue   # a listed finding of the included check outside this property's scope
             if h["key"] not in [x["key"] for x in self.known_hits]:
                 self.known_hits.append(h)
         self.tlc_runs += sub.tlc_runs
